@@ -94,7 +94,7 @@ impl Program {
             .collect()
     }
 
-    fn type_ref(&self, i: usize) -> String {
+    pub fn type_ref(&self, i: usize) -> String {
         let d = &self.decls[i];
         let q = if self.cxx { self.path(i) } else { d.base.clone() };
         if self.cxx {
